@@ -1,0 +1,11 @@
+//go:build !verif
+
+package lib
+
+// VerifPoint marks a yield point for the verification harness.
+// Without the "verif" build tag it is a no-op.
+func VerifPoint(point string, subject any) {}
+
+// VerifNow returns the given time. The verification harness can override it
+// with the "verif" build tag.
+func VerifNow(now int64) int64 { return now }
